@@ -15,7 +15,7 @@ from props import common
 from props.kernel_common import heap_item, q, bfail, bok, random_dag, eval_plan
 
 PROP = 'C04'
-FUNCS = ['Simulator.topologicalSort', 'Simulator.propagateAll', 'Simulator.findFirstDependentPosition', 'HWSystem.getSimulator']
+FUNCS = ['Simulator.topologicalSort', 'Simulator.propagateAll', 'Simulator.findFirstDependentPosition', 'HWSystem.getSimulator', 'Simulator.__init__']
 
 
 def settle(seed=0, n=30, **kw):
@@ -138,11 +138,11 @@ def main(tier, seed, only=None):
     items += [('props.C04:settle', dict(seed=seed * 100 + k, n=n // 8)) for k in range(8)] + [('props.C04:cycles', dict(seed=seed))] + [('props.C04:late', dict(seed=seed * 10 + k, n=n // 4)) for k in range(4)]
     items = common.filter_only(items, only)
     res = run.run_items(items)
-    return run.finish(PROP, tier, res, t0, level='proof', seed=seed, functions=['py4hw/simulation.py::' + f for f in FUNCS[:3]] + ['py4hw/base.py::HWSystem.getSimulator'],
+    return run.finish(PROP, tier, res, t0, level='proof', seed=seed, functions=['py4hw/simulation.py::' + f for f in FUNCS[:3] + FUNCS[4:]] + ['py4hw/base.py::HWSystem.getSimulator'],
                       assumptions=['abstract leaf contract (L1): propagate() writes only wires driven by the block, re-establishes the block\'s own output/input agreement, and can invalidate only blocks that read one of its outputs; each concrete leaf is proved to refine it in C07/C08/C09 (frame obligations)',
                                    'findFirstDependentPosition is proved against the contract the sorter uses (least position of a dependent, -1 if none), with dep defined as: a propagatable block reading a wire driven by an output port; its requires (the evaluation list holds every propagatable block) are established by the first loop of topologicalSort and kept by the exchanges of the sorting loops: proved (invariants of all three loops), from the assumed contract of allLeaves (every propagatable object is among the leaves it returns)',
-                                   'HWSystem.getSimulator returns, on every path, a simulator whose evaluation list is sorted and holds every propagatable leaf (proved from the contracts of Simulator(sys) and topologicalSort; coverage is proved in topologicalSort from the assumed contract of allLeaves)',
-                                   'allLeaves / isClockable / isPropagatable / getOrCreateClockDriverSimulator / addClockable: frames assumed as declared in contracts/kernel.py',
+                                   'HWSystem.getSimulator returns, on every path, a simulator whose evaluation list is sorted and holds every propagatable leaf (proved from the contracts of Simulator.__init__ -- itself proved, the singleton shortcut of __new__ aside -- and topologicalSort; coverage is proved in topologicalSort from the assumed contract of allLeaves)',
+                                   'allLeaves / isClockable / isPropagatable: assumed as declared in contracts/kernel.py (allLeaves returns every propagatable and every clockable object, once); getOrCreateClockDriverSimulator / addClockable are proved (C05 / C10)',
                                    'uniqueness of the fixpoint and rejection of cycles of length >= 2 follow from strict sortedness by induction along the order / along a closed walk (meta-steps, DESIGN 4/C04)',
                                    common.dropped_note()],
                       bounded_parts=[{'what': 'random DAGs (1..30 gates) x instantiation orders (random, reversed, forward): sortedness, findFirstDependentPosition vs independent computation, settled values vs order-independent evaluation at creation and after clk', 'netlists': n},
